@@ -62,6 +62,18 @@ def perturbations(a):
         out.append(('interval %d: change end' % i, b))
         b = cp(); b.intervals[i].ambiguous = not iv.ambiguous
         out.append(('interval %d: flip ambiguity' % i, b))
+    # a position holding a repeated modification next to a different one: turning one copy of the repeated value into the other value keeps
+    # the length and the SET of modifications but changes the multiset
+    lists = [(f, lambda b_, f=f: getattr(b_, f)) for f in ('nterm_mods', 'cterm_mods', 'labile_mods', 'unknown_mods') if getattr(a, f)]
+    lists += [('residue %d' % k, lambda b_, k=k: b_.internal_mods[k]) for k in im]
+    for nm, get in lists:
+        ms = get(a)
+        for i, m in enumerate(ms):
+            others = [o for o in ms if (o.val, o.mult) != (m.val, m.mult)]
+            if len(ms) >= 3 and others and sum(1 for o in ms if (o.val, o.mult) == (m.val, m.mult)) >= 2:
+                b = cp(); get(b)[i] = copy.deepcopy(others[0])
+                out.append((nm + ': turn one copy of a repeated modification into another one already present', b))
+                break
     b = cp(); b._charge = (a.charge or 0) + 1
     out.append(('charge: change', b))
     if n:
@@ -130,7 +142,9 @@ def fk(inp, exp, obs):
 
 def run(rec, tier, seed):
     rnd = random.Random(seed)
-    for text, _ in annotations(tier, seed):
+    extra = ['PEP[Oxidation][Oxidation][Phospho]TIDE', '[Acetyl][Acetyl][Methyl]-PEPTIDE', 'PEPTIDE-[Amidated][Methyl][Methyl]',
+             '[Phospho][Phospho][Oxidation]?PEPTIDE', 'K[1.5][1.5][2.5][2.5]EK']
+    for text in [t for t, _ in annotations(tier, seed)] + extra:
         inp = dict(text=text)
         rec.guarded('reconstruct-and-equality', inp, lambda: case(inp), fk)
     for text in EXTRA:
